@@ -65,7 +65,7 @@ Section Render.
   Variable m : Z -> Q.              (* Scaler.mapVal o float64 *)
   Variable rnd : Q -> Q.            (* float64 rounding *)
   Variable keys : Z -> Z -> list Z. (* Scaler.ScaleKeys(6, min, max) *)
-  Variable fmt : Z -> str.          (* Formatter(val, _, _) *)
+  Variable fmt : Z -> Z -> Z -> str. (* Formatter(val, min, max) *)
 
   Definition str_len (s : str) : Z := Z.of_nat (if col then sl false s else length s).
   Definition vis (s : str) : str := if col then strip false s else s.
@@ -262,7 +262,7 @@ Section Render.
     | k :: r =>
         c <- heat_write (scale m rnd k mn mx) ;;
         rest <- legend_items false r mn mx ;;
-        Ok ((if first then [] else sp4) ++ c ++ [SP] ++ fmt k ++ rest)
+        Ok ((if first then [] else sp4) ++ c ++ [SP] ++ fmt k mn mx ++ rest)
     end.
   Definition heat_legend (w mn mx : Z) : result str :=
     l <- legend_items true (keys mn mx) mn mx ;; Ok (rep (w + 1) SP ++ l).
@@ -355,8 +355,8 @@ Section Render.
     | r :: rest =>
         let vals := last_cols k (r_vals r) in
         cells <- rconcat (fun v => spark_write (scale m rnd v mn mx)) vals ;;
-        let vfirst := match vals with [] => [] | v :: _ => fmt v end in
-        let vlast := match vals with [] => [] | _ => fmt (last vals 0) end in
+        let vfirst := match vals with [] => [] | v :: _ => fmt v mn mx end in
+        let vlast := match vals with [] => [] | _ => fmt (last vals 0) mn mx end in
         spark_rows (S i) mn mx k rest
           (tw_write_row (fst st) (snd st) (S i)
              [wrap col_Yellow (r_name r); wrap col_BrightBlack vfirst; cells; wrap col_BrightBlack vlast])
@@ -382,15 +382,16 @@ Section Render.
   Definition spark_new (rlim : nat) : tw * term := (tw_new 4 (S rlim), []).
 
   (* ---------- datatable.go ---------- *)
-  Fixpoint dt_rows (line : nat) (k : nat) (rowtot : bool) (rows : list (str * list Z * Z)) (st : tw * term)
+  (* min / max as DataTable.WriteTable passes them after SetFormatter (needsMinMax) *)
+  Fixpoint dt_rows (mn mx : Z) (line : nat) (k : nat) (rowtot : bool) (rows : list (str * list Z * Z)) (st : tw * term)
     : tw * term :=
     match rows with
     | [] => st
     | r :: rest =>
-        dt_rows (S line) k rowtot rest
+        dt_rows mn mx (S line) k rowtot rest
           (tw_write_row (fst st) (snd st) line
-             ([wrap col_Yellow (r_name r)] ++ map fmt (firstn k (r_vals r)) ++
-              [if rowtot then wrap col_BrightBlack (fmt (r_sum r)) else []]))
+             ([wrap col_Yellow (r_name r)] ++ map (fun v => fmt v mn mx) (firstn k (r_vals r)) ++
+              [if rowtot then wrap col_BrightBlack (fmt (r_sum r) mn mx) else []]))
     end.
   Definition dt_write_table (ncols nrows : nat) (rowtot coltot : bool) (st : tw * term) (a : agg) : tw * term :=
     let k := Nat.min ncols (length (a_cols a)) in
@@ -399,12 +400,12 @@ Section Render.
                  ([[]] ++ map (wrap (col_Underline ++ col_BrightBlue)) cols ++
                   [if rowtot then wrap (col_Underline ++ col_BrightBlack) s_Total else []]) in
     let shown := firstn nrows (a_rows a) in
-    let st2 := dt_rows 1 k rowtot shown st1 in
+    let st2 := dt_rows (a_min a) (a_max a) 1 k rowtot shown st1 in
     if coltot then
       tw_write_row (fst st2) (snd st2) (S (length shown))
         ([wrap (col_BrightBlack ++ col_Underline) s_Total] ++
-         map (fun t => wrap col_BrightBlack (fmt t)) (firstn k (a_tot a)) ++
-         [if rowtot then wrap col_BrightWhite (fmt (a_sum a)) else []])
+         map (fun t => wrap col_BrightBlack (fmt t (a_min a) (a_max a))) (firstn k (a_tot a)) ++
+         [if rowtot then wrap col_BrightWhite (fmt (a_sum a) (a_min a) (a_max a)) else []])
     else st2.
   Definition dt_new (ncols nrows : nat) : tw * term := (tw_new (ncols + 2) (nrows + 2), []).
 
@@ -416,7 +417,7 @@ Section Render.
     bar <- (if showbar && (0 <? h_max h) then
               b <- bar_write (scale m rnd val 0 (h_max h)) 50 ;; Ok ([SP] ++ cwrite col_Blue b)
             else Ok []) ;;
-    Ok (wrap col_Yellow (pad_right key (h_ts h)) ++ sp4 ++ pad_right (fmt val) 10 ++ bar).
+    Ok (wrap col_Yellow (pad_right key (h_ts h)) ++ sp4 ++ pad_right (fmt val 0 (h_max h)) 10 ++ bar).
   Fixpoint histo_full (showbar : bool) (h : histo) (i : nat) (items : list (str * Z)) (tm : term) : result term :=
     match items with
     | [] => Ok tm
@@ -476,7 +477,7 @@ Section Render.
         let pre := match i with O => wrap col_Yellow (pad_right key (b_klen b)) ++ [SP; SP]
                             | _ => rep (b_klen b + 2) SP end in
         bg_grouped_lines size b key (S i) line r
-          (set_nth (line + i) (pre ++ cwrite c bar ++ [SP] ++ fmt v) tm)
+          (set_nth (line + i) (pre ++ cwrite c bar ++ [SP] ++ fmt v 0 (b_max b)) tm)
     end.
   (* writeBar: returns the updated maxRows too *)
   Definition bg_write_bar (size : Z) (stacked : bool) (b : bg) (tm : term) (idx : nat) (key : str) (vals : list Z)
@@ -486,7 +487,7 @@ Section Render.
       let b1 := mkBg (b_klen b) (b_keys b) (b_rows b) (Z.max (b_max b) total) (b_maxrows b) (b_prefix b) in
       let line := (idx + b_prefix b)%nat in
       bar <- bar_stacked (b_max b1) size vals ;;
-      let text := wrap col_Yellow (pad_right key (b_klen b1)) ++ [SP; SP] ++ bar ++ [SP; SP] ++ fmt total in
+      let text := wrap col_Yellow (pad_right key (b_klen b1)) ++ [SP; SP] ++ bar ++ [SP; SP] ++ fmt total 0 (b_max b1) in
       Ok (mkBg (b_klen b1) (b_keys b1) (b_rows b1) (b_max b1) (Nat.max (b_maxrows b1) (S line)) (b_prefix b1),
           set_nth line text tm)
     else
